@@ -71,7 +71,12 @@ lines.append("Each sub-agent saw only the text of one property and a scratch "
              "pure function of the INPUTS of the property (values, shapes, "
              "options, file contents, call sequence) - a hole in the input "
              "space of the checks as described to the agent, not in their "
-             "environment. %d changes in total: %d rejected as outside the "
+             "environment. Round 13 (S13-*) asked for the opposite of a hidden "
+             "trigger: a realistic pull request of 20-80 lines (refactoring, "
+             "optimisation, small feature, library-API adaptation, robustness "
+             "clean-up) written as a maintainer would, containing ONE honest "
+             "mistake, without any description of the checks; 18 of the 20 "
+             "were caught by the checks as they stood. %d changes in total: %d rejected as outside the "
              "quantified domain (marked), %d not detected (marked, a "
              "documented limit), %d detected; "
              "the 'caught by' column says when a check had to be "
